@@ -218,7 +218,7 @@ def fxp_like(x, val=None):
         New Fxp object like `x`.
 
     '''
-    y = x.copy()
+    y = x.deepcopy()    # (a shallow copy shares the configuration and the status record with `x`)
     return y(val)
 
 def fxp_sum(x, sizes='best_sizes', axis=None, dtype=None, out=None, vdtype=None):
@@ -668,8 +668,8 @@ def clip(a, a_min=None, a_max=None, out=None, out_like=None, sizing='optimal', m
         val_min = kwargs.pop('a_min', None)
         val_max = kwargs.pop('a_max', None)
 
-        if val_min is not None: val_min *= 2**x.n_frac
-        if val_max is not None: val_max *= 2**x.n_frac
+        if val_min is not None: val_min = val_min * 2**x.n_frac     # (not in place: the bounds may be the caller's arrays)
+        if val_max is not None: val_max = val_max * 2**x.n_frac
 
         return utils.clip(x.val, val_min=val_min, val_max=val_max) * precision_cast(2**(n_frac - x.n_frac))
 
